@@ -158,6 +158,11 @@ func PollValue() int64            { return 0 }
 func Handoff()                    { runtime.Gosched() }
 func Yield()                      { runtime.Gosched() }
 func SetHook(name string, f func()) {}
+
+// SetGob installs the engine's model of an encoding/gob stream: enc receives
+// every value passed to (*gob.Encoder).Encode, dec every destination pointer
+// passed to (*gob.Decoder).Decode. Natively the real package runs.
+func SetGob(enc func(e interface{}) error, dec func(p interface{}) error) {}
 func IteInt64(c bool, a, b int64) int64 {
 	if c {
 		return a
